@@ -288,7 +288,12 @@ func Run[C any](t *testing.T, s Sub[C]) {
 	if cnt < 1 {
 		cnt = 1
 	}
-	sr := rec.sub(s.Name, s.Rule, s.Require)
+	require := s.Require
+	if bits.UintSize == 32 {
+		// (the reduced 32-bit shards are supplementary: the vacuity guard is carried by the 64-bit shards)
+		require = nil
+	}
+	sr := rec.sub(s.Name, s.Rule, require)
 	sr.Requested += cnt
 	start := time.Now()
 	var (
